@@ -188,11 +188,11 @@ func (w *world) drain() {
 // callback is the simulator-owned reconnect callback (one connection attempt).
 func (w *world) callback(addr string) error {
 	a := w.addr(addr)
-	w.o.attemptStart(a)
+	tok := w.o.attemptStart(a)
 	d := drawAttemptDuration(0)
 	ok := simrt.Chance(1, 6, "outcome")
 	simrt.Sleep(d)
-	w.o.attemptEnd(a, ok)
+	w.o.attemptEnd(a, tok, ok)
 	if ok {
 		a.connected = true
 		return nil
@@ -326,9 +326,9 @@ func (s *stubTransport) Dial(ctx context.Context, addr string, opts transport.Di
 		w.o.driverDialFailed(a)
 		return nil, errDial
 	}
-	w.o.attemptStart(a)
+	tok := w.o.attemptStart(a)
 	simrt.Sleep(drawAttemptDuration(9 * time.Second))
-	w.o.attemptEnd(a, false)
+	w.o.attemptEnd(a, tok, false)
 	return nil, errDial
 }
 
